@@ -50,7 +50,7 @@ CLAUSES = {
     "MJD = JDE - 2400000.5": "proved [B64, exact at 0h of every civil date]; other instants by correspondence/search",
     "mean sidereal time in [0,1)": "proved [B64] at 117 387 instants (every 100th day x 3 fractions; every 8th day in the thorough-only obligation); all JDE only searched (T3 not attempted)",
     "mean sidereal time agrees with IAU 1982 to 1e-7 day, rate 1.00273790935 turns/day": "proved [B64 vs exact rational IAU 1982 value] at the same instants (the spec is linear in the day fraction with that rate); ideal-instance identity for all JDE: unproved (searched) - pyrun needs a case split per float % (24 leaves), not finished",
-    "apparent - mean sidereal time = equation of the equinoxes, under 1.2 s": "unproved (searched): needs libm (cos) and the nutation series; correspondence + oracle; the 1.2 s bound is searched for years -2000..4000 (C08's nutation domain)",
+    "apparent - mean sidereal time = equation of the equinoxes, under 1.2 s": "unproved (searched): needs libm (cos) and the nutation series; correspondence + oracle over JDE in [0, 5.4e6]; known finding equation-of-equinoxes-exceeds-1.2s-far-epochs (up to ~1.204 s outside years -2000..4000)",
 }
 
 
@@ -348,10 +348,13 @@ def scan_sidereal(rng, npts):
             out.append({"key": "apparent-equation-of-equinoxes", "what":
                         "apparent - mean sidereal time at JDE %r = %r s, equation of the equinoxes dpsi*cos(eps)/15 = %r s" % (j, (a - x) * 86400.0, eqeq),
                         "input": [j], "replay": rp})
-        # the 1.2 s bound rests on the size of the nutation in longitude, which the 1980 series keeps only
-        # where it is meant to be used (C08: years -2000..4000); far outside its secular amplitude terms take over
-        if 990558.0 <= j <= 3182030.0 and abs(a - x) * 86400.0 >= 1.2:
-            out.append({"key": "apparent-minus-mean-bound", "what": "apparent - mean sidereal time at JDE %r = %r s, not under 1.2 s" % (j, (a - x) * 86400.0),
+        # the bound is checked over the whole range [0, 5.4e6]; outside years -2000..4000 the 1980 nutation
+        # series (secular amplitude terms) pushes it slightly above 1.2 s: recorded known finding, as long as <= 1.25 s
+        exc = abs(a - x) * 86400.0
+        if exc >= 1.2:
+            far = not (990558.0 <= j <= 3182030.0)
+            key = "equation-of-equinoxes-exceeds-1.2s-far-epochs" if (far and exc <= 1.25) else "apparent-minus-mean-bound"
+            out.append({"key": key, "what": "apparent - mean sidereal time at JDE %r = %r s, not under 1.2 s" % (j, (a - x) * 86400.0),
                         "input": [j], "replay": rp})
         if len(out) > 60: break
     return out, n
